@@ -53,6 +53,7 @@ func c01(tier string) []*explore.Scenario {
 	out = append(out, c16RPCFam("C01", "2unary", false, 1), c16RPCFam("C01", "2unary", true, 1), c16RPCFam("C01", "payloads", true, 0))
 	// on a connection with a history (earlier calls that succeeded, failed, were cancelled or reset)
 	out = append(out, withHistory(historyKinds(tier), c01Direct(2, env.PipeOpts{Cap: 64, Serialize: true}, 1, false), c01Direct(3, env.PipeOpts{Cap: 0}, 1, false), c01Direct(16, po, 0, false))...)
+	out = append(out, c01DemuxKeyReuse(1, 0, 1), c01DemuxKeyReuse(3, 0, 0), c01DemuxKeyReuse(2, 1, 0))
 	// up to 64 callers whose handlers all wait: every queue of the path is full at once
 	out = append(out, c01Gated("direct", 64, 64, 0), c01Gated("direct", 32, 0, 0), c01Gated("demux", 64, 64, 0), c01Gated("demux", 40, 0, 0),
 		c01Gated("proxy", 40, 64, 0), c01Gated("proxy", 24, 0, 0), c01Gated("demux", 12, 0, 1), c01Gated("proxy", 64, 0, 0), c01Gated("demux", 20, 64, 1), c01Gated("proxy", 20, 64, 1), c01Gated("direct", 20, 0, 1))
@@ -446,6 +447,53 @@ func c01FailedWriteOlder(prop string, bound int) *explore.Scenario {
 				vsched.Fail(fam+"|not-idle:"+diffKey(idle, st), "after an older call's write failed with a newer call in flight, and all calls returned, the connection did not return to its idle state:\n%s", diffStates(idle, st))
 			}
 			finishDirect(d, w, true)
+		},
+	}
+}
+
+// c01DemuxKeyReuse: calls through client - Demux - Serve; then the key's logical connection is
+// cancelled (Demux.Cancel, its Serve returns); then the same client goes on calling: the key is
+// used again and is a new logical connection with a Serve of its own. `between` other keys'
+// envelopes pass through the Demux between the cancel and the reuse (0: none).
+func c01DemuxKeyReuse(rounds, between, bound int) *explore.Scenario {
+	fam := "C01/demux-key-reuse"
+	return &explore.Scenario{
+		Name: fmt.Sprintf("C01/demux-key-reuse/rounds=%d/other-keys-between=%d", rounds, between), Family: fam, Prop: "C01", Bound: bound,
+		Run: func() {
+			w := env.NewWorld()
+			d := env.NewDirect(w, env.DirectOpts{Pipe: env.PipeOpts{Cap: 64}, Demux: true})
+			vsched.Settle()
+			vsched.Explore(true)
+			n := 0
+			for round := 0; round <= rounds; round++ {
+				var rs []*env.Rec
+				for i := 0; i < 2; i++ {
+					r := w.Rec(fmt.Sprintf("c%d", n), "Unary")
+					n++
+					rs = append(rs, r)
+					vsched.GoNamed("caller-"+r.Tag, func() { w.CallUnary(d.CC, context.Background(), r, "x"+r.Tag) })
+				}
+				vsched.Quiesce()
+				for _, r := range rs {
+					checkUnary(r, "x"+r.Tag, fam)
+				}
+				if round == rounds {
+					break
+				}
+				d.Demux.Cancel("cli")
+				vsched.Quiesce()
+				for i := 0; i < between; i++ {
+					// a request from another source: a logical connection (and Serve) of its own
+					o := w.Rec(fmt.Sprintf("o%d.%d", round, i), "Unary")
+					req := env.ReqUnary(uint64(7000+n), o.Tag, "x")
+					req.Header.Source = fmt.Sprintf("other%d", i)
+					d.Pipe.A.Inject(req)
+					vsched.Quiesce()
+					if o.HStarts != 1 {
+						vsched.Fail(fam+"|other-key", "a request from another source after key cli was cancelled: its handler ran %d times", o.HStarts)
+					}
+				}
+			}
 		},
 	}
 }
